@@ -122,7 +122,7 @@ theorem inv_glyph_local (P : Params V) (T : Tables) (hcov : Coverage T = true) (
           · exfalso
             obtain ⟨gx, k, c, m, hgx, hk, hb, hrd⟩ := hex
             obtain ⟨d, y, hd, hy, hhit⟩ := cascade_hits_glyph T hcov w1.glyphs w1.fuel h ns hdom.bounded hdom.watch
-              hh hrel hgx hk hb hrd (regs := w.regs) hinv.rdef (hinv.creg _ _ _ _ h0)
+              hh hrel hgx hk hb hrd (regs := w.regs) hinv.rdef (hinv.creg _ _ _ _ h0).1
             exact not_survivor hs (by rw [hr]; exact hd) (hD _ hy) hhit
           · exact view_glyph_other T w w1 h g g' hg hgs hf x e nm (Or.inl hrel)
         · exact view_glyph_other T w w1 h g g' hg hgs hf x e nm
@@ -207,7 +207,7 @@ theorem glyph_self_dead (T : Tables) {w w1 : World V} (hrdef : RegsDefault T w) 
     (hcreg : CachedRegistered T w1) {nm : String} {sk : SubKey} {v : V}
     (hs : (cacheOf (applyDeliv T w1 ds) (.glyph h)).get? nm sk = some v) : False := by
   have h1 := (get?_applyDeliv T w1 ds _ nm sk v hs).1
-  have hreg := hcreg _ _ _ _ h1
+  have hreg := (hcreg _ _ _ _ h1).1
   obtain ⟨d, y, hd, hy, hh⟩ := hits_of_hitsAll (regs := w1.regs) (by rw [hr]; exact hrdef) hall hreg
   exact not_survivor hs hd (hD _ (glyphDeliv_self' hb hy)) hh
 
@@ -813,7 +813,7 @@ theorem inv_cmut (P : Params V) (T : Tables) (hcov : Coverage T = true) (w : Wor
             subst hc1
             simp [contourView, hbi, bumpContour, contourToks, Obj.cls]
           · exfalso
-            have hreg := hinv.creg _ _ _ _ h1
+            have hreg := (hinv.creg _ _ _ _ h1).1
             have : ∃ d y, (nm, d) ∈ facsOf T w.regs "Contour" ∧ y ∈ T.postsOf "Contour" meth ∧ d.hit y = true := by
               by_cases hc1 : cell = CCell.attr
               · simp only [hc1, if_true] at hcc
@@ -961,7 +961,7 @@ theorem inv_kmut (P : Params V) (T : Tables) (hcov : Coverage T = true) (w : Wor
         have h1 := (get?_applyDeliv T _ _ _ nm sk v hs).1
         have hca : w1.caches = w.caches := by rw [← hw1]; rfl
         rw [cacheOf_eq_of_caches hca] at h1
-        have hreg := hinv.creg _ _ _ _ h1
+        have hreg := (hinv.creg _ _ _ _ h1).1
         have : ∃ d y, (nm, d) ∈ facsOf T w.regs "Component" ∧ y ∈ T.postsOf "Component" meth ∧ d.hit y = true := by
           by_cases hc1 : cell = CCell.attr
           · simp only [hc1, if_true] at hcc
@@ -1007,8 +1007,131 @@ theorem inv_ksetBase (P : Params V) (T : Tables) (hcov : Coverage T = true) (w :
     have h1 := (get?_applyDeliv T _ _ _ nm sk v hs).1
     have hca : w1.caches = w.caches := by rw [← hw1]; rfl
     rw [cacheOf_eq_of_caches hca] at h1
-    obtain ⟨d, y, hd, hy, hhit⟩ := hits_of_hitsAll hinv.rdef hcc.2 (hinv.creg _ _ _ _ h1)
+    obtain ⟨d, y, hd, hy, hhit⟩ := hits_of_hitsAll hinv.rdef hcc.2 (hinv.creg _ _ _ _ h1).1
     exact not_survivor hs (by rw [hrg]; exact hd) (compDeliv_self hy) hhit
+
+theorem bounds_noKw {nm : String} (h : nm ∈ boundsNames) : acceptsKw nm = false := by
+  simp only [boundsNames, List.mem_cons, List.mem_nil_iff, or_false] at h
+  rcases h with h | h <;> subst h <;> decide
+
+/-- `Contour.move` (`cmove`): the two bounds entries are patched, everything else on the contour goes -/
+theorem inv_cmove (P : Params V) (T : Tables) (hcov : Coverage T = true) (hpatch : PatchOK P) (w : World V)
+    (cid : Nat) (dx dy : Int) (hinv : Inv P T w) (hdom : Dom w) (hdom' : Dom (doCmove P T w cid dx dy).1) :
+    Inv P T (doCmove P T w cid dx dy).1 := by
+  unfold doCmove at hdom' ⊢
+  cases hh : hostOfContour w.glyphs cid with
+  | none =>
+    simp only [hh] at hdom' ⊢
+    by_cases hl : w.looseC.any (fun c => c.id = cid) = true
+    · simp only [hl, if_true]
+      exact inv_loose_change P T w _ hinv rfl rfl rfl rfl rfl
+    · simp only [hl]; simpa using hinv
+  | some h =>
+    simp only [hh] at hdom' ⊢
+    obtain ⟨hg, hhas⟩ := host_get_contour hdom.ids.keys hh
+    have hcc : covCell T "Contour" .attr (moveNotifs T) = true := cov_mem hcov (by simp [covList])
+    unfold covCell at hcc
+    rw [Bool.and_eq_true, changed_lit] at hcc
+    simp only [if_true] at hcc
+    have hcb : boundsNames.all (isBuiltin T "Contour") = true := cov_mem hcov (by simp [covList])
+    have hcp : (T.factoriesOf "Contour").all
+        (fun p => boundsNames.contains p.1 || p.2.hit "Contour.PointsChanged") = true := cov_mem hcov (by simp [covList])
+    generalize hw2 : (setCache ({ w with glyphs := updGlyph w.glyphs h.1 (mapContours cid (shiftContour dx dy)) } : World V)
+        (.contour cid) (moveCache P (facsOf T ({ w with glyphs := updGlyph w.glyphs h.1 (mapContours cid (shiftContour dx dy)) } : World V).regs "Contour")
+          (cacheOf ({ w with glyphs := updGlyph w.glyphs h.1 (mapContours cid (shiftContour dx dy)) } : World V) (.contour cid)) dx dy) : World V) = w2
+        at hdom' ⊢
+    have hgs : w2.glyphs = AL.set w.glyphs h.1 (mapContours cid (shiftContour dx dy) h.2) := by
+      rw [← hw2]; exact updGlyph_eq_set _ hg
+    have hf : w2.fuel = w.fuel := by rw [← hw2]; rfl
+    have hrg : w2.regs = w.regs := by rw [← hw2]; rfl
+    have hgv : w2.groupsVer = w.groupsVer := by rw [← hw2]; rfl
+    have hlc : w2.looseC = w.looseC := by rw [← hw2]; rfl
+    have hlk : w2.looseK = w.looseK := by rw [← hw2]; rfl
+    have hca : ∀ o, cacheOf w2 o = if Obj.contour cid = o then
+        moveCache P (facsOf T w.regs "Contour") (cacheOf w (.contour cid)) dx dy else cacheOf w o := by
+      intro o; rw [← hw2]; exact cacheOf_setCache _ _ o _
+    have hother : ∀ o, Obj.contour cid ≠ o → cacheOf w2 o = cacheOf w o := by
+      intro o e; rw [hca]; simp [e]
+    -- every entry of the new cache has a predecessor under the same key
+    have hpred : ∀ o nm sk v, (cacheOf w2 o).get? nm sk = some v → ∃ v0, (cacheOf w o).get? nm sk = some v0 := by
+      intro o nm sk v hv
+      by_cases e : Obj.contour cid = o
+      · subst e
+        rw [hca, if_pos rfl] at hv
+        rcases Cache.get?_moveCache _ _ _ _ _ _ _ _ hv with ⟨_, hsk, v0, hv0, _⟩ | ⟨h0, _, _⟩
+        · subst hsk; exact ⟨v0, hv0⟩
+        · exact ⟨v, h0⟩
+      · rw [hother o e] at hv; exact ⟨v, hv⟩
+    have hd1 := Dom.congr (sameStruct_applyDeliv T _ _).symm hdom'
+    have hcg := cov_glyphOutline hcov (m := "_contourChanged") (by simp [glyphOutlineMethods])
+    have hcreg1 : CachedRegistered T w2 := by
+      intro o nm sk v hv
+      obtain ⟨v0, hv0⟩ := hpred o nm sk v hv
+      rw [hrg]; exact hinv.creg _ _ _ _ hv0
+    have hid : ∀ c, (shiftContour dx dy c).id = c.id := fun _ => rfl
+    refine inv_glyph_local P T hcov w w2 h.1 h.2 _ (T.postsOf "Glyph" "_contourChanged") _ hinv hg hgs hf hrg hgv
+      hd1 (fun y hy => contourDeliv_glyph hcc.1 hy) (Or.inl hcg.2)
+      (fun o nm sk v hne hv => by rw [hother o (fun e => hne cid e.symm)] at hv; exact hv) hcreg1 ?_ ?_ ?_ ?_
+    · intro o ha nm sk
+      have : attached w o = false := by
+        rw [← ha]; symm
+        cases o with
+        | contour cid' =>
+          exact attached_contour_set w w2 h.1 h.2 _ hdom.ids.keys hg hgs cid' (hasContour_mapContours cid cid' _ hid h.2)
+        | comp kid => exact attached_comp_set w w2 h.1 h.2 _ hdom.ids.keys hg hgs kid rfl
+        | glyph x => exact attached_glyph_set w w2 h.1 h.2 _ hg hgs x
+        | groups => rfl
+      cases hv : (cacheOf w2 o).get? nm sk with
+      | none => rfl
+      | some v =>
+        obtain ⟨v0, hv0⟩ := hpred o nm sk v hv
+        rw [hinv.loose o this nm sk] at hv0; cases hv0
+    · intro nm sk v hs
+      exact (glyph_self_dead T hinv.rdef hrg hcg.1 hd1.bounded (fun y hy => contourDeliv_glyph hcc.1 hy) hcreg1 hs).elim
+    · intro cid' nm sk v hs
+      have h1 := (get?_applyDeliv T _ _ _ nm sk v hs).1
+      by_cases e : cid' = cid
+      · subst e
+        obtain ⟨c0, hc0⟩ := contourIn_of_has hhas
+        obtain ⟨hf1, hf0⟩ := findContour_at_host w w2 cid' h _ hdom.ids.keys hh hgs (hasContour_mapContours cid' cid' _ hid h.2)
+        rw [contourIn_mapContours_self cid' _ hid h.2, hc0] at hf1
+        rw [hc0] at hf0
+        simp only [viewOf, hf1, Option.map_some, Option.getD_some]
+        rw [hca, if_pos rfl] at h1
+        rcases Cache.get?_moveCache _ _ _ _ _ _ _ _ h1 with ⟨hb, hsk, v0, hv0, hv⟩ | ⟨h0, hbk, hnh⟩
+        · subst hsk
+          have hbi : isBuiltin T "Contour" nm = true := List.all_eq_true.mp hcb nm hb
+          have hc := hinv.coh _ _ _ _ hv0
+          simp only [fresh, viewOf, hf0, Option.map_some, Option.getD_some, Obj.cls] at hc
+          rw [hv, hc]
+          simp only [contourView, hbi, if_true, contourToks, shiftContour]
+          exact (hpatch nm hb c0.ver c0.ox c0.oy dx dy).symm
+        · exfalso
+          by_cases hb : nm ∈ boundsNames
+          · exact hbk hb ((hinv.creg _ _ _ _ h0).2 (bounds_noKw hb))
+          · by_cases hbi : isBuiltin T "Contour" nm = true
+            · unfold isBuiltin at hbi
+              rw [List.any_eq_true] at hbi
+              obtain ⟨p, hp, hpn⟩ := hbi
+              simp only [decide_eq_true_eq] at hpn
+              have h3 := List.all_eq_true.mp hcp p hp
+              have hnc : boundsNames.contains p.1 = false := by
+                rw [hpn]
+                cases hc : boundsNames.contains nm with
+                | false => rfl
+                | true => exact absurd (by simpa using hc) hb
+              rw [hnc, Bool.false_or] at h3
+              have := hnh hb p.2 (by rw [← hpn]; exact mem_facsOf_builtin hp)
+              rw [h3] at this; cases this
+            · obtain ⟨d, y, hd, hy, hhit⟩ := hits_of_hitsReg hinv.rdef hcc.2 (hinv.creg _ _ _ _ h0).1
+                (by simpa using hbi)
+              exact not_survivor hs (by rw [hrg]; exact hd) (contourDeliv_self hy) hhit
+      · rw [hother _ (fun e' => e (by cases e'; rfl))] at h1
+        exact cont_of_view P T hinv h1
+          (viewOf_contour_of_find T (findContour_set w w2 h.1 h.2 _ hdom.ids.keys hg hgs cid' (by rw [hlc])
+            (hasContour_mapContours cid cid' _ hid h.2) (contourIn_mapContours_other cid cid' e _ hid h.2)) nm)
+    · intro kid
+      exact Or.inl (findComp_set w w2 h.1 h.2 _ hdom.ids.keys hg hgs kid (by rw [hlk]) rfl rfl)
 
 /-- an attribute mutator of a glyph (`gmut`) -/
 theorem inv_gmut (P : Params V) (T : Tables) (hcov : Coverage T = true) (w : World V) (g meth : String)
@@ -1044,7 +1167,7 @@ theorem inv_gmut (P : Params V) (T : Tables) (hcov : Coverage T = true) (w : Wor
         · exact view_glyph_self_builtin T w _ g r _ hr hgs rfl rfl rfl nm hbi
         · exfalso
           have h1 := (get?_applyDeliv T _ _ _ nm sk v hs).1
-          have hreg := hinv.creg _ _ _ _ h1
+          have hreg := (hinv.creg _ _ _ _ h1).1
           obtain ⟨d, y, hd, hy, hh⟩ := hits_of_hitsReg (regs := w.regs) hinv.rdef hposts hreg (by simpa using hbi)
           exact not_survivor hs hd (glyphDeliv_self' hd1.bounded hy) hh
       · -- contours
